@@ -671,6 +671,26 @@ fn main() {
     });
     raw_and_multipart(&ctx, &srv, &cn, &samples);
     let tls = vec![tls_slice(&ctx, 3, &cn, &samples), if ctx.tier == Tier::Thorough { tls_slice(&ctx, 4, &cn, &samples) } else { json!(null) }];
+    // versioned routes whose versions differ in body content type / parameter type: valid requests
+    // at every version are delivered to the endpoint serving that version
+    {
+        use vh::slices::{versioned, VERSION_HEADER};
+        let vsrv = LiveServer::start(zoo9::versioned_api(), zoo9::ZooCtx::default(), ServerOpts { version_policy: Some(versioned("9.0.0")), default_body_max: 4096, ..Default::default() }).unwrap_or_else(|e| machinery_failure(&e));
+        let mut ka = KeepAlive::new(vsrv.addr);
+        let want = serde_json::to_string(&Two { a: "gear &=%".into(), b: 7, c: Some(Color::Green) }).unwrap();
+        for (path, json_from_2) in [("/widget", true), ("/gadget", false)] {
+            for ver in ["0.1.0", "1.0.0", "1.9.9", "2.0.0", "2.5.0", "8.0.0"] {
+                let v2 = !(ver.starts_with('0') || ver.starts_with('1'));
+                let (ct, body): (&str, Vec<u8>) = if v2 == json_from_2 { ("application/json", want.clone().into_bytes()) } else { ("application/x-www-form-urlencoded", b"a=gear+%26%3D%25&b=7&c=green".to_vec()) };
+                let req = request("POST", path, &format!("content-type: {ct}\r\n{VERSION_HEADER}: {ver}\r\n"), &body);
+                run_case(&ctx, &mut ka, &Case { carrier: "versioned", what: format!("versioned route {path} at {ver} ({ct})"), req, want: want.clone() }, &cn, &samples);
+            }
+        }
+        for (ver, val) in [("1.0.0", "255"), ("1.9.9", "0"), ("2.0.0", "-9223372036854775808"), ("2.5.0", "256")] {
+            let req = get(&format!("/n/{val}"), &format!("{VERSION_HEADER}: {ver}\r\n"));
+            run_case(&ctx, &mut ka, &Case { carrier: "versioned", what: format!("versioned route /n at {ver}"), req, want: format!("{{\"v\":{val}}}") }, &cn, &samples);
+        }
+    }
     // every request reached its handler exactly once (no handler ran for a refused one)
     let entered = srv.server().app_private().total();
 
